@@ -1,7 +1,22 @@
+// vh-trie binds specs/Trie (node-level model of data/trie) to the real patriciaMerkleTrie.
+//
+//	vh-trie replay <behaviours.ndjson> <keys.json>     TLC behaviours (Trie.tla) -> real trie: C01 C02 C03
+//	vh-trie record <seed> <traces> <len> <out>         random histories on the real trie -> trace for Trace_Trie
+//	vh-trie proofs <cases.ndjson>                      TLC-enumerated (trie, key, proof) cases (TrieProof.tla) -> GetProof/VerifyProof: C04
+//	vh-trie proofrec <seed> <tries> <out>              random tries/keys/proofs on the real code -> log for Trace_TrieProof
+//
+// No model logic lives here: expected values come from the TLC output; this program drives the real code,
+// projects what it returns (values as small ints, root hashes as interned ids) and compares / logs.
 package main
 
 import (
+	"bytes"
+	"encoding/json"
 	"fmt"
+	"os"
+	"sort"
+	"strconv"
+	"strings"
 
 	"github.com/ElrondNetwork/elrond-go/data"
 	"github.com/ElrondNetwork/elrond-go/data/trie"
@@ -11,51 +26,180 @@ import (
 	"verif/harness/internal/vtrace"
 )
 
-func newTrie(maxLevel uint) data.Trie {
+type M = vtrace.M
+
+var (
+	marsh  = &marshal.GogoProtoMarshalizer{}
+	hasher = keccak.NewKeccak()
+)
+
+// newStorage creates the storage manager used by all tries of one behaviour (they share the DB).
+func newStorage() data.StorageManager {
 	tsm, err := trie.NewTrieStorageManagerWithoutPruning(memorydb.New())
 	if err != nil {
 		panic(err)
 	}
-	tr, err := trie.NewTrie(tsm, &marshal.GogoProtoMarshalizer{}, keccak.NewKeccak(), maxLevel)
+	return tsm
+}
+
+func newTrieOn(tsm data.StorageManager, maxLevel int) data.Trie {
+	tr, err := trie.NewTrie(tsm, marsh, hasher, uint(maxLevel))
 	if err != nil {
 		panic(err)
 	}
 	return tr
 }
 
+// valBytes is the concrete value for the abstract value v (0 = empty value): v bytes of value v,
+// so that different abstract values also differ in length.
+func valBytes(v int) []byte {
+	if v == 0 {
+		return []byte{}
+	}
+	return bytes.Repeat([]byte{byte(v)}, v)
+}
+
+// valAbs projects a concrete value back: 0 for empty/nil, v for valBytes(v), -1 for anything else.
+func valAbs(b []byte) int {
+	if len(b) == 0 {
+		return 0
+	}
+	v := int(b[0])
+	if len(b) != v {
+		return -1
+	}
+	for _, x := range b {
+		if int(x) != v {
+			return -1
+		}
+	}
+	return v
+}
+
+// keyOf reads a TLA+ byte sequence (JSON array of numbers) as a key.
+func keyOf(v interface{}) []byte {
+	if v == nil {
+		return []byte{}
+	}
+	a, ok := v.([]interface{})
+	if !ok {
+		// TLC's Json module prints the empty sequence as [] but an empty function/record may come as {}
+		if m, isMap := v.(map[string]interface{}); isMap && len(m) == 0 {
+			return []byte{}
+		}
+		panic(fmt.Sprintf("keyOf: %T %v", v, v))
+	}
+	r := make([]byte, len(a))
+	for i := range a {
+		r[i] = byte(vtrace.Int(a[i]))
+	}
+	return r
+}
+
+func keyJSON(k []byte) []int {
+	r := make([]int, len(k))
+	for i := range k {
+		r[i] = int(k[i])
+	}
+	return r
+}
+
+// pairsOf reads a TLA+ set of <<key, value>> pairs into a map keyed by string(key).
+func pairsOf(v interface{}) map[string]int {
+	res := map[string]int{}
+	if v == nil {
+		return res
+	}
+	a, ok := v.([]interface{})
+	if !ok {
+		if m, isMap := v.(map[string]interface{}); isMap && len(m) == 0 {
+			return res
+		}
+		panic(fmt.Sprintf("pairsOf: %T %v", v, v))
+	}
+	for _, p := range a {
+		pr := p.([]interface{})
+		res[string(keyOf(pr[0]))] = vtrace.Int(pr[1])
+	}
+	return res
+}
+
+// mapKey is a canonical text of a contents map (used to compare partitions: equal contents <=> equal root hash).
+func mapKey(m map[string]int) string {
+	ks := make([]string, 0, len(m))
+	for k := range m {
+		ks = append(ks, k)
+	}
+	sort.Strings(ks)
+	var sb strings.Builder
+	for _, k := range ks {
+		fmt.Fprintf(&sb, "%x=%d;", k, m[k])
+	}
+	return sb.String()
+}
+
+// leavesOf enumerates the leaves of a root through the public API.
+func leavesOf(tr data.Trie, root []byte) (pairs [][2]string, err error) {
+	ch, err := tr.GetAllLeavesOnChannel(root)
+	if err != nil {
+		return nil, err
+	}
+	for l := range ch {
+		pairs = append(pairs, [2]string{string(l.Key()), string(l.Value())})
+	}
+	return pairs, nil
+}
+
+// safely runs f and converts a panic of the code under test into an error text.
+func safely(f func()) (panicked string) {
+	defer func() {
+		if r := recover(); r != nil {
+			panicked = fmt.Sprint(r)
+		}
+	}()
+	f()
+	return ""
+}
+
+func readJSONArg(s string, v interface{}) {
+	if strings.HasPrefix(s, "@") {
+		b, err := os.ReadFile(s[1:])
+		if err != nil {
+			panic(err)
+		}
+		s = string(b)
+	}
+	if err := json.Unmarshal([]byte(s), v); err != nil {
+		panic(err)
+	}
+}
+
+func atoi(s string) int {
+	n, err := strconv.Atoi(s)
+	if err != nil {
+		panic(err)
+	}
+	return n
+}
+
 func main() {
 	vtrace.Quiet()
-	tr := newTrie(2)
-	fmt.Println(tr.Update([]byte{}, []byte{1}))
-	fmt.Println(tr.Update([]byte{0x22}, []byte{2}))
-	fmt.Println(tr.Update([]byte{0x11, 0x22}, []byte{3}))
-	fmt.Println(tr.Update([]byte{0x33, 0x22}, []byte{4}))
-	for _, k := range [][]byte{{}, {0x22}, {0x11, 0x22}, {0x33, 0x22}, {0x11, 0x55}} {
-		v, err := tr.Get(k)
-		fmt.Println("get", k, v, err)
+	if len(os.Args) < 2 {
+		fmt.Fprintln(os.Stderr, "usage: vh-trie replay|record|proofs|proofrec ...")
+		os.Exit(2)
 	}
-	rh, err := tr.RootHash()
-	fmt.Println(vtrace.Hex(rh), err)
-	fmt.Println(tr.Commit())
-	ch, err := tr.GetAllLeavesOnChannel(rh)
-	fmt.Println(err)
-	for l := range ch {
-		fmt.Println("leaf", l.Key(), l.Value())
+	switch os.Args[1] {
+	case "replay":
+		replay(os.Args[2], os.Args[3])
+	case "record":
+		seed, _ := strconv.ParseInt(os.Args[2], 10, 64)
+		record(seed, atoi(os.Args[3]), atoi(os.Args[4]), os.Args[5])
+	case "proofs":
+		proofs(os.Args[2])
+	case "proofrec":
+		seed, _ := strconv.ParseInt(os.Args[2], 10, 64)
+		proofrec(seed, atoi(os.Args[3]), os.Args[4])
+	default:
+		os.Exit(2)
 	}
-	//
-	fmt.Println(tr.String())
-	t2, err := tr.Recreate(rh)
-	fmt.Println(err)
-	//
-	pf, err := tr.GetProof([]byte{0x11, 0x22})
-	fmt.Println(len(pf), err)
-	func() {
-		defer func() { fmt.Println("recovered", recover()) }()
-		ok, err := t2.VerifyProof([]byte{0x11, 0x55}, pf)
-		fmt.Println("verify 1155", ok, err)
-		ok, err = t2.VerifyProof([]byte{}, pf)
-		fmt.Println("verify empty", ok, err)
-	}()
-	dh, err := tr.GetDirtyHashes()
-	fmt.Println(len(dh), err)
 }
